@@ -35,6 +35,11 @@ CLAIMED.update({
     "C04": _ch("C04", "ids, parameters; notification form x outcome x batch position x dispatch/pool configuration", "DESIGN.md 3/C04",
                "Trusted: as for C02, plus the recording pool standing for a ThreadPool that obeys C09 (composition argument: the dispatcher enqueues exactly one right task; C09 decides that every enqueued task runs exactly once)."),
     "C05": _ch("C05", "ids and parameters; failure classes, method-name and message tables", "DESIGN.md 3/C05"),
+    "C07": _ch("C07", "field values of generated class definitions; positions; direct and over the loopback RPC path", "DESIGN.md 3/C07"),
+    "C08": dict(_ch("C08", "descriptor forms, depths, table names; tripwires", "DESIGN.md 3/C08"),
+                technique="AST->z3 strings/regex translation of the name validation (decided for all strings) + " + CH,
+                engine="SMT-S+CH"),
+    "C20": _ch("C20", "field values; ignore-list subsets, handler tables, configured names, positions", "DESIGN.md 3/C20"),
     "C13": _ch("C13", "ids, parameters, mutated Config values; request pairs and Config mutations", "DESIGN.md 3/C13"),
     "C14": _ch("C14", "rpcid, method text, parameter leaves, Fault fields", "DESIGN.md 3/C14"),
     "C15": _ch("C15", "every primitive leaf as Union[None,bool,int,float,str]; container nestings depth<=2/3", "DESIGN.md 3/C15"),
@@ -77,7 +82,7 @@ def main():
             "add_only": True,
         },
         "engines": [
-            {"name": "CH", "path": "engine/ch.py", "serves_properties": sorted(k for k, v in CLAIMED.items() if v["engine"].startswith("CH")), "kind_free_text": "CrossHair (symbolic execution + z3) obligation runner: per-shape contracts, twins, native replay"},
+            {"name": "CH", "path": "engine/ch.py", "serves_properties": sorted(k for k, v in CLAIMED.items() if "CH" in v["engine"]), "kind_free_text": "CrossHair (symbolic execution + z3) obligation runner: per-shape contracts, twins, native replay"},
             {"name": "SMT-S", "path": "engine/smts.py", "serves_properties": sorted(k for k, v in CLAIMED.items() if "SMT-S" in v["engine"]), "kind_free_text": "Python string-fragment AST -> z3 strings/regex"},
             {"name": "TS", "path": "engine/py2ts.py", "serves_properties": sorted(k for k, v in CLAIMED.items() if "TS" in v["engine"]), "kind_free_text": "threadpool.py AST -> transition system -> z3 BMC / induction; settrace replay"},
         ],
